@@ -64,3 +64,20 @@ package fclient
 //@   ensures uri-round-trips: err == nil ==> extcall("(*net/url.URL).RequestURI", result[0].URL) == r.fields.RequestURI
 //@   calls Add header-only-if-quotable: key == "Authorization" && allQd(string(r.fields.Origin)) && allQd(string(r.fields.Destination))
 //@   calls NewRequest method-and-target: method == r.fields.Method
+
+// ---------------------------------------------------------------- C19: DNS cache (monitor)
+
+//@ monitor DNSCache.mutex
+//@   protects entries
+//@   invariant map-allocated: self.entries != nil
+//@   invariant size-bound: self.size >= 1 ==> len(self.entries) <= self.size
+//@   invariant entries-non-nil: forall n string :: n in self.entries ==> self.entries[n] != nil
+//@   invariant own-host: forall n string :: n in self.entries ==> self.entries[n].addrs == self.resolver.LookupIPAddr(nil, n)[0]
+
+//@ func (*DNSCache).lookup
+//@   property C19
+//@   requires c != nil && c.resolver != nil && !locked(c, "mutex") && c.size >= 1
+//@   ensures lock-released: !locked(c, "mutex")
+//@   ensures hit-not-expired: result[1] ==> (result[0] != nil && unixNano(result[0].expires) > nowNano)
+//@   ensures own-host: result[0] != nil ==> result[0].addrs == c.resolver.LookupIPAddr(nil, name)[0]
+//@   loop 1: invariant c.entries != nil && (forall n string :: n in c.entries ==> (c.entries[n] != nil && c.entries[n].addrs == c.resolver.LookupIPAddr(nil, n)[0])) && locked(c, "mutex")
